@@ -43,7 +43,7 @@ func (self *BinaryConv) do(ctx context.Context, src []byte, desc *proto.TypeDesc
 	// when desc is Singular/Map/List
 	if desc.Type() != proto.MESSAGE {
 		wtyp := proto.Kind2Wire[protoreflect.Kind(desc.Type())]
-		return self.doRecurse(ctx, desc, out, resp, &p, wtyp)
+		return self.doRecurse(ctx, desc, out, resp, &p, wtyp, len(src))
 	}
 
 	// when desc is Message
@@ -80,7 +80,7 @@ func (self *BinaryConv) do(ctx context.Context, src []byte, desc *proto.TypeDesc
 		*out = json.EncodeString(*out, fd.JSONName())
 		*out = json.EncodeObjectColon(*out)
 		// Parse ProtoData and encode into json format
-		err := self.doRecurse(ctx, fd.Type(), out, resp, &p, typeId)
+		err := self.doRecurse(ctx, fd.Type(), out, resp, &p, typeId, len(src))
 		if err != nil {
 			return unwrapError(fmt.Sprintf("converting field %s of MESSAGE %s failed", fd.Name(), fd.Kind()), err)
 		}
@@ -91,12 +91,13 @@ func (self *BinaryConv) do(ctx context.Context, src []byte, desc *proto.TypeDesc
 }
 
 // Parse ProtoData into JSONData by DescriptorType
-func (self *BinaryConv) doRecurse(ctx context.Context, fd *proto.TypeDescriptor, out *[]byte, resp http.ResponseSetter, p *binary.BinaryProtocol, typeId proto.WireType) error {
+// end is the end position of the enclosing message in p.Buf
+func (self *BinaryConv) doRecurse(ctx context.Context, fd *proto.TypeDescriptor, out *[]byte, resp http.ResponseSetter, p *binary.BinaryProtocol, typeId proto.WireType, end int) error {
 	switch {
 	case (*fd).IsList():
-		return self.unmarshalList(ctx, resp, p, typeId, out, fd)
+		return self.unmarshalList(ctx, resp, p, typeId, out, fd, end)
 	case (*fd).IsMap():
-		return self.unmarshalMap(ctx, resp, p, typeId, out, fd)
+		return self.unmarshalMap(ctx, resp, p, typeId, out, fd, end)
 	default:
 		return self.unmarshalSingular(ctx, resp, p, out, fd)
 	}
@@ -257,7 +258,7 @@ func (self *BinaryConv) unmarshalSingular(ctx context.Context, resp http.Respons
 			*out = json.EncodeObjectColon(*out)
 
 			// parse MessageFieldValue recursive
-			err := self.doRecurse(ctx, fd.Type(), out, resp, p, typeId)
+			err := self.doRecurse(ctx, fd.Type(), out, resp, p, typeId, start+l)
 			if err != nil {
 				return unwrapError(fmt.Sprintf("converting field %s of MESSAGE %s failed", fd.Name(), fd.Kind()), err)
 			}
@@ -272,7 +273,8 @@ func (self *BinaryConv) unmarshalSingular(ctx context.Context, resp http.Respons
 // parse ListType
 // Packed List format: [Tag][Length][Value Value Value Value Value]....
 // Unpacked List format: [Tag][Length][Value] [Tag][Length][Value]....
-func (self *BinaryConv) unmarshalList(ctx context.Context, resp http.ResponseSetter, p *binary.BinaryProtocol, typeId proto.WireType, out *[]byte, fd *proto.TypeDescriptor) (err error) {
+// the elements of an unpacked list end at the latest where the enclosing message does (end)
+func (self *BinaryConv) unmarshalList(ctx context.Context, resp http.ResponseSetter, p *binary.BinaryProtocol, typeId proto.WireType, out *[]byte, fd *proto.TypeDescriptor, end int) (err error) {
 	*out = json.EncodeArrayBegin(*out)
 
 	fileldNumber := fd.BaseId()
@@ -297,7 +299,7 @@ func (self *BinaryConv) unmarshalList(ctx context.Context, resp http.ResponseSet
 		if err := self.unmarshalSingular(ctx, resp, p, out, fd.Elem()); err != nil {
 			return err
 		}
-		for p.Read < len(p.Buf) {
+		for p.Read < end {
 			elementFieldNumber, _, tagLen, err := p.ConsumeTagWithoutMove()
 
 			if err != nil {
@@ -322,7 +324,8 @@ func (self *BinaryConv) unmarshalList(ctx context.Context, resp http.ResponseSet
 // parse MapType
 // Map bytes format: [Pairtag][Pairlength][keyTag(L)V][valueTag(L)V] [Pairtag][Pairlength][T(L)V][T(L)V]...
 // Pairtag = MapFieldnumber << 3 | wiretype:BytesType
-func (self *BinaryConv) unmarshalMap(ctx context.Context, resp http.ResponseSetter, p *binary.BinaryProtocol, typeId proto.WireType, out *[]byte, fd *proto.TypeDescriptor) (err error) {
+// the pairs end at the latest where the enclosing message does (end)
+func (self *BinaryConv) unmarshalMap(ctx context.Context, resp http.ResponseSetter, p *binary.BinaryProtocol, typeId proto.WireType, out *[]byte, fd *proto.TypeDescriptor, end int) (err error) {
 	fileldNumber := (*fd).BaseId()
 	_, lengthErr := p.ReadLength()
 	if lengthErr != nil {
@@ -363,7 +366,7 @@ func (self *BinaryConv) unmarshalMap(ctx context.Context, resp http.ResponseSett
 	}
 
 	// parse the remaining k-v pairs
-	for p.Read < len(p.Buf) {
+	for p.Read < end {
 		pairNumber, _, tagLen, err := p.ConsumeTagWithoutMove()
 		if err != nil {
 			return wrapError(meta.ErrRead, "consume list child Tag error", err)
